@@ -16,6 +16,7 @@ Ltac inv_ok :=
           match goal with
           | H : Ok _ = Ok _ |- _ => injection H; clear H; intros; subst
           | H : Some _ = Some _ |- _ => injection H; clear H; intros; subst
+          | H : Panic _ = Panic _ |- _ => injection H; clear H; intros; subst
           | H : (_, _) = (_, _) |- _ => injection H; clear H; intros; subst
           | H : context [nth_error _ ?n] |- _ => is_var n; destruct n
           | _ => break_match_hyp
